@@ -337,6 +337,31 @@ func runCheck(prop, tier string, only string) int {
 					_ = text
 				}
 			}
+			// a vector that does not reproduce: try the other input vectors that
+			// violated the same assertion before calling it unconfirmed
+			if !h.NoReplay {
+				for i, a := range fresh {
+					if reproduced(res[i]) || len(a.Alts) == 0 {
+						continue
+					}
+					rf2 := &ReplayFile{Property: prop, Harness: rf.Harness, Pkg: h.Pkg, Func: h.Func, Params: ts.Params, Race: h.Race, Repeat: h.Repeat}
+					for _, alt := range a.Alts {
+						rf2.Vectors = append(rf2.Vectors, alt.Vector)
+						rf2.Expect = append(rf2.Expect, alt.Kind+" "+alt.Label)
+					}
+					res2, _, rerr := nativeReplay(rf2, 120*time.Second)
+					if rerr != nil {
+						continue
+					}
+					for k, alt := range a.Alts {
+						if k < len(res2) && reproduced(res2[k]) {
+							a.First = alt
+							res[i] = res2[k]
+							break
+						}
+					}
+				}
+			}
 			for i, a := range fresh {
 				v := a.First
 				desc := fmt.Sprintf("%s %q at %s (%d path(s)); inputs %s", v.Kind, v.Label, relPos(v.Pos), a.Count, vecString(v.Vector))
